@@ -1112,6 +1112,50 @@ func (c *Ctx) RuleRxRebuild() *Result {
 			}
 			info.orders = append(info.orders, order)
 		}
+		// a group that is re-emitted only under a condition: the condition may only ask whether that group
+		// matched anything (its own obligation, so that it is told apart from findings about the pattern)
+		for root := range roots {
+			rin, ok := root.(ssa.Instruction)
+			if !ok || rin.Parent() != s.fn {
+				continue
+			}
+			for _, op := range stringOperands(root, 0) {
+				g, isElem := elem[op]
+				if !isElem {
+					continue
+				}
+				S := rin.Block()
+				reachS := blocksReaching(S)
+				for d := S.Idom(); d != nil; d = d.Idom() {
+					iff, ok := d.Instrs[len(d.Instrs)-1].(*ssa.If)
+					if !ok || len(d.Succs) != 2 {
+						continue
+					}
+					// only conditions inside the branch that handles this match
+					if !s.call.Block().Dominates(d) || d == s.call.Block() {
+						continue
+					}
+					for oi, o := range d.Succs {
+						if reachS[o] || o == S || !c.reachesNormalReturn(o) {
+							continue
+						}
+						// the group is read inside the conditional part (otherwise it belongs to what was built before)
+						t := d.Succs[1-oi]
+						if oin, ok := op.(ssa.Instruction); !ok || !t.Dominates(oin.Block()) {
+							continue
+						}
+						res.Instances++
+						ck := fmt.Sprintf("%s:conditional re-emission of group %d of %s", load.FnName(s.fn), g, s.pattern.Name)
+						cond, _ := unwrapNot(iff.Cond)
+						if isLenTestOfSameElem(cond, op) {
+							res.ok(ck, c.P.InstrPos(iff), "re-emitted whenever it matched something")
+						} else {
+							res.bad(ck, c.P.InstrPos(iff), fmt.Sprintf("group %d is put back into the line only under a condition that is not 'the group matched something': on the other side its text is dropped from the file", g))
+						}
+					}
+				}
+			}
+		}
 		res.Instances++
 		key := fmt.Sprintf("%s:rebuild from %s", load.FnName(s.fn), s.pattern.Name)
 		pos := c.P.InstrPos(s.call)
@@ -1212,6 +1256,43 @@ func (c *Ctx) RuleRxRebuild() *Result {
 }
 
 func isBuilderOf(v ssa.Value, roots map[ssa.Value]bool) bool { return roots[v] }
+
+// isLenTestOfSameElem: cond is len(X) compared with a constant where X is the same slice element as elemV
+// (another load of the same index of the same slice).
+func isLenTestOfSameElem(cond ssa.Value, elemV ssa.Value) bool {
+	b, ok := cond.(*ssa.BinOp)
+	if !ok {
+		return false
+	}
+	var lenOp ssa.Value
+	for _, side := range []ssa.Value{b.X, b.Y} {
+		if call, ok := side.(*ssa.Call); ok {
+			if bi, ok := call.Call.Value.(*ssa.Builtin); ok && bi.Name() == "len" {
+				lenOp = stripConv(call.Call.Args[0])
+			}
+		}
+	}
+	if lenOp == nil {
+		return false
+	}
+	ev := stripConv(elemV)
+	if lenOp == ev {
+		return true
+	}
+	la, ok1 := lenOp.(*ssa.UnOp)
+	lb, ok2 := ev.(*ssa.UnOp)
+	if !ok1 || !ok2 {
+		return false
+	}
+	ia, ok1 := la.X.(*ssa.IndexAddr)
+	ib, ok2 := lb.X.(*ssa.IndexAddr)
+	if !ok1 || !ok2 || ia.X != ib.X {
+		return false
+	}
+	ka, ok1 := constInt(ia.Index)
+	kb, ok2 := constInt(ib.Index)
+	return ok1 && ok2 && ka == kb
+}
 
 func isTextType(t types.Type) bool {
 	if b, ok := t.Underlying().(*types.Basic); ok {
